@@ -104,17 +104,18 @@ func VerifRTSPSession(events []string) (out string) {
 	s.outboundRTPPacketsDiscarded = &counterdumper.Dumper{OnReport: func(uint64) {}}
 	s.outboundRTPPacketsDiscarded.Start()
 	closed := false
+	safeStop := func(f func()) {
+		defer func() { _ = recover() }() // already stopped by onClose
+		f()
+	}
 	defer func() {
 		if r := recover(); r != nil {
 			l.toks = append(l.toks, "PANIC")
-			closed = true
 		}
-		if !closed {
-			// not part of the op: release the dumpers of a session that was never closed
-			s.outboundRTPPacketsDiscarded.Stop()
-			s.inboundRTPPacketsInError.Stop()
-			s.inboundRTPPacketsLost.Stop()
-		}
+		// not part of the op: release the dumpers if onClose did not get to it
+		safeStop(s.outboundRTPPacketsDiscarded.Stop)
+		safeStop(s.inboundRTPPacketsInError.Stop)
+		safeStop(s.inboundRTPPacketsLost.Stop)
 		pool.Close()
 		if len(l.toks) == 0 {
 			out = "-"
